@@ -257,6 +257,13 @@ def _case(arg) -> Dict[str, Any]:
         # ranks whose kernels are all of ONE analysed type, overlapping across three streams (no other type to overlap with)
         kw.update(only_kernel_type="compute" if seed % 5 == 3 else "comm", n_streams=3, p_same_ts_kernel=0.6)
     per_rank = gen.gen_trace_set(seed, n_ranks=1 + seed % 2, **kw)
+    if seed % 4 == 1 and len(per_rank) > 1 and seed % 5 not in (3, 4):
+        # ranks with DIFFERENT sets of kernel-type combinations: the last rank runs computation only (its communication / copy kernels renamed),
+        # so a combination present on rank 0 is absent there (per-type times are sums over the ranks that have the combination)
+        for e in per_rank[max(per_rank)]:
+            if e.get("cat") in ("kernel", "gpu_memcpy", "gpu_memset") or str(e.get("name", "")).startswith(("nccl", "Mem")):
+                if isinstance(e.get("args"), dict) and e["args"].get("stream", -1) != -1:
+                    e["name"], e["cat"] = "void gemm_kernel_a", "kernel"
     fails: List[Dict[str, Any]] = []
     n = 0
     inp = {"seed": seed, "num_kernels": num_kernels, "duration_ratio": ratio, "include_memory_kernels": with_mem, "events": per_rank}
@@ -304,7 +311,13 @@ def _case(arg) -> Dict[str, Any]:
                     got = {c: float(row[c]) for c in exp}
                     if any(abs(got[c] - exp[c]) > 1e-6 for c in exp):
                         fails.append({"what": "aggr.named_stats", "input": inp, "observed": {"name": row["name"], **got}, "expected": exp})
-        got_type = {r["kernel_type"]: int(r["sum"]) for _, r in kt_df.iterrows()}
+        def _as_int(x):
+            try:
+                return int(x)
+            except (TypeError, ValueError):
+                return None  # NaN / missing: reported as observed, never silently dropped
+
+        got_type = {r["kernel_type"]: _as_int(r["sum"]) for _, r in kt_df.iterrows()}
         n += 1
         bad = {k: (got_type.get(k), v) for k, v in exp_type.items() if got_type.get(k) != v}
         bad.update({k: (v, 0) for k, v in got_type.items() if k not in exp_type and v != 0})
